@@ -67,7 +67,7 @@ fn is_convert(a: &DifficultyAttributes) -> Option<bool> {
 
 fn main() {
     let ctx = Ctx::from_env("C14");
-    ctx.rule("case = (mode configuration, grammar map); per case: mods menu (NM, HR, DT, Mirror variants, key mods, HoldOff, Invert, ...) x n in 0..=total+2; oracle = an independent counter over the converted Beatmap: osu circles/sliders/spinners of the prefix, taiko max_combo = hits, mania n_objects / n_hold_notes (HoldOff -> 0 holds), catch fruits = circles + slider heads + repeats + tails (full map); counted amount = min(n, total); every count non-decreasing in n; n > total gives the same attributes as not limiting; is_convert <=> converted; non-trivial = map has objects");
+    ctx.rule("case = (mode configuration, grammar map); per case: mods menu (NM, HR, DT, Mirror variants, key mods, HoldOff, Invert, ...) x n in 0..=total+2; oracle = an independent counter over the converted Beatmap: osu circles/sliders/spinners of the prefix, taiko max_combo = hits, mania n_objects / n_hold_notes (HoldOff -> 0 holds), catch fruits = circles + slider heads + repeats + tails (full map); counted amount = min(n, total); every count non-decreasing in n; n > total gives the same attributes as not limiting; is_convert <=> converted; universe 'text-lines-vs-counts': every object line of the written text, with integer and with fractional start times and positions, is one object of its kind in the decoded map and in the native attributes; non-trivial = map has objects");
 
     let n_max = ctx.pick(4, 5);
     let mut opts = UniOpts::new(n_max);
@@ -193,6 +193,56 @@ fn main() {
             }
         });
     }
+    // what the file lists is what gets counted: every object line of the written text (integer and fractional start times
+    // and positions) is one object of its kind in the decoded map and in the native attributes
+    {
+        let mut opts = UniOpts::new(ctx.pick(3, 4));
+        opts.cfgs = (0..4).map(|m| gen::ModeCfg { src: m, dst: m }).collect();
+        opts.kinds_std = vec![gen::Kind::Circle, gen::Kind::Slider2, gen::Kind::Spinner(600)];
+        opts.kinds_mania = vec![gen::Kind::Circle, gen::Kind::Hold(300)];
+        opts.gaps = vec![0, 150];
+        opts.poss = vec![gen::PosK::Far];
+        opts.tag = "/text-lines-vs-counts".into();
+        for u in opts.build() {
+            ctx.universe(&u.name, u.total * 2, |idx, l| {
+                let spec = gen::MapSpec { frac_tenths: [0u8, 5][(idx % 2) as usize], ..u.spec(idx / 2) };
+                let text = spec.text();
+                let mut listed = (0u32, 0u32, 0u32, 0u32);
+                for line in text.split_once("[HitObjects]\n").map_or("", |x| x.1).lines() {
+                    match line.split(',').nth(3).and_then(|t| t.parse::<u32>().ok()) {
+                        Some(t) if t & 1 != 0 => listed.0 += 1,
+                        Some(t) if t & 2 != 0 => listed.1 += 1,
+                        Some(t) if t & 8 != 0 => listed.2 += 1,
+                        Some(t) if t & 128 != 0 => listed.3 += 1,
+                        _ => {}
+                    }
+                }
+                let map = spec.decode();
+                l.states(1);
+                l.checked(2);
+                if listed != (0, 0, 0, 0) {
+                    l.nontrivial();
+                }
+                u.sample(l, idx / 2, &spec, "object lines of the text vs decoded kinds vs native attribute counts");
+                let decoded = kind_counts(&map, usize::MAX);
+                if decoded != listed {
+                    l.violation("listed_vs_decoded", || format!("the text lists (circles, sliders, spinners, holds) = {listed:?} but the decoded map has {decoded:?}\nspec={}\n--- .osu ---\n{text}", spec.describe()));
+                    return;
+                }
+                let a = api::difficulty(&Difficulty::new(), &map, u.cfg.dst).expect("native");
+                let want = match u.cfg.dst {
+                    0 => listed.0 + listed.1 + listed.2,
+                    1 => listed.0,
+                    3 => listed.0 + listed.3,
+                    _ => counted(&a),
+                };
+                if counted(&a) != want {
+                    l.violation("listed_vs_counted", || format!("the text lists {listed:?} (circles, sliders, spinners, holds) but the attributes count {}: {a:?}\nspec={}\n--- .osu ---\n{text}", counted(&a), spec.describe()));
+                }
+            });
+        }
+    }
+
     // format versions: counting rules change at version 8 (slider tick distance) and nowhere else between 5 and 14 — maps
     // with ticked sliders under a doubled slider velocity must count alike within {5, 6, 7} and within {8, 9, 10, 14}
     {
